@@ -167,3 +167,17 @@ func H_C07_inflate(join, p int64) {
 	vCover("C07.inflate.done")
 	vSamePathsD("C07.inflate", got, ScalePaths64ToPathsD(ref, 1/scale))
 }
+
+// H_C07_rect_trunc: the ScaleRectD truncation finding on one concrete input
+// (rectangle bounds whose scaled values have a fractional part of 0.6).
+func H_C07_rect_trunc() {
+	vKnown("C07.rect-trunc", true)
+	scale := vScale(2)
+	rect := NewRectD(1.006, 1.006, 8.006, 8.006)
+	path := PathsD{{{0, 0}, {10, 0}, {10, 10}, {0, 10}}}
+	q := ScalePathDToPath64(PathD{{1.006, 1.006}, {8.006, 8.006}}, scale)
+	rect64 := NewRect64(q[0].X, q[0].Y, q[1].X, q[1].Y)
+	got := RectClipPathsD(rect, path, 2)
+	want := ScalePaths64ToPathsD(RectClipPaths64(rect64, ScalePathsDToPaths64(path, scale)), 1/scale)
+	vSamePathsD("C07.rect", got, want)
+}
